@@ -7,6 +7,7 @@ parts of `cv_array`, so every interleaving of the halves produces the same array
 import B3.Proofs.Conc
 import B3.Tree.Wide
 import B3.Model.GenK
+import B3.Gen.Listings
 namespace B3.Props.C08
 open B3 B3.Rs B3.Conc
 
@@ -72,6 +73,29 @@ theorem left_first_eq_right_first (l r : List CV) (degree : Nat) (hl : l.length 
   have := split_schedule_independent l r degree hl _ (mk _ _) mem
   rw [← this]
   simp [applyAll, List.foldl_append]
+
+/-- **The join site, tied to the source** (regenerated listing of src/join.rs, of the `J::join` call in
+`compress_subtree_wide`, and of the same site in c/blake3.c). Both `Join` implementations run each
+closure exactly once and return both results (`SerialJoin`: left then right; `RayonJoin`: `rayon_core::join`
+of the same two closures). The left half receives the left part of `input.split_at` and the left part of
+`cv_array.split_at_mut(degree * OUT_LEN)`, the right half the right parts and its own chunk counter; the
+only writable argument of each half is its own output slice, and the two come from one `split_at_mut`,
+i.e. they are the disjoint ranges `[0, degree*OUT_LEN)` and `[degree*OUT_LEN, ..)` that
+`split_schedule_independent` is about. The C library hands `cv_array` and `&cv_array[degree *
+BLAKE3_OUT_LEN]` to the two halves in the serial build and, with the same arguments, to the TBB seam. -/
+theorem join_site_footprints :
+    Gen.Listings.joinBody_Serial = "(oper_a(),oper_b())" ∧
+    Gen.Listings.joinBody_Rayon = "rayon_core::join(oper_a,oper_b)" ∧
+    Gen.Listings.wideInputSplit = ["left", "right"] ∧
+    Gen.Listings.wideOutSplit = ["left_out", "right_out", "degree*OUT_LEN"] ∧
+    Gen.Listings.wideLeftArgs = ["left", "key", "chunk_counter", "flags", "platform", "left_out"] ∧
+    Gen.Listings.wideRightArgs = ["right", "key", "right_chunk_counter", "flags", "platform", "right_out"] ∧
+    Gen.Listings.cWideRightCvs = "degree*BLAKE3_OUT_LEN" ∧
+    Gen.Listings.cWideLeftArgs = ["input", "left_input_len", "key", "chunk_counter", "flags", "cv_array", "use_tbb"] ∧
+    Gen.Listings.cWideRightArgs = ["right_input", "right_input_len", "key", "right_chunk_counter", "flags", "right_cvs", "use_tbb"] ∧
+    Gen.Listings.cWideTbbArgs = ["key", "flags", "use_tbb", "input", "left_input_len", "chunk_counter", "cv_array", "&left_n",
+      "right_input", "right_input_len", "right_chunk_counter", "right_cvs", "&right_n"] := by
+  refine ⟨rfl, rfl, rfl, rfl, rfl, rfl, rfl, rfl, rfl, rfl⟩
 
 example : Interleave [(0, (1 : Nat))] [(5, 2)] [(5, 2), (0, 1)] := .right _ (.left _ .nil)
 
